@@ -19,6 +19,7 @@ type env struct {
 	inOld bool
 	pos   token.Pos
 	errs  []string
+	noLocals bool
 }
 
 func (vc *FuncVC) newEnv(cur, old *State, pos token.Pos) *env {
@@ -82,6 +83,9 @@ func (e *env) fail(format string, args ...interface{}) Term {
 // lookupLocal resolves a source-level name at e.pos to the current value of the variable.
 func (e *env) lookupLocal(name string) (Term, bool) {
 	vc := e.vc
+	if e.noLocals {
+		return Term{}, false
+	}
 	fn := vc.fn
 	if fn.Pkg == nil && fn.Parent() != nil {
 		// closures keep Pkg of parent
